@@ -986,5 +986,9 @@ func runC10(r *drv.Run) drv.Spec {
 	c10generated(e, env)
 	pureWg.Wait()
 	r.Extra["packages"] = len(env.pkgs)
+	// generated programs: purity of every unmarked method the real checker
+	// accepts, incl. the near-miss family that tries every route to a store or
+	// an impure call from a pure method
+	runProgs(r, "c10")
 	return sp
 }
